@@ -51,6 +51,14 @@ CHECKS["C15"] = (
     "DESIGN.md section 2 / C15",
 )
 
+CHECKS["C16"] = (
+    "proptest-generated static/static-inline function libraries (C04 model) x suffix/path/language/header-passing modes; validity of the wrapper source (clang), symbol set of the wrapper object (nm), differential execution through the wrappers with the C04 digest oracle",
+    "exploration",
+    "Every function of a generated C04 library is defined `static` or `static inline` in the header (a third first declared without parameter names; optionally one function taking a va_list). bindgen runs with --wrap-static-fns (default or custom suffix, default or custom path; header by path, as two input headers, or as in-memory contents; C or C++). The wrapper source must compile against the header with the same flags; in C its object must define exactly the symbols `<name><suffix>` of the bound functions and nothing else; variadic static functions must not be bound; the C04 caller, linked against the wrapper object, must reproduce digest, return value, returned aggregates and pointee side effects of every wrapped function.",
+    "host target; in C++ the symbol check is link success; known findings excluded by construction and counted: parameters of type pointer-to-function-returning-function-pointer, a parameter named like its function.",
+    "DESIGN.md section 2 / C16",
+)
+
 CHECKS["C17"] = (
     "proptest-generated include trees; differential against `clang -M` on the same command line, depfile round-trip parse, callback log vs cargo lines",
     "exploration",
